@@ -122,7 +122,7 @@ class Ctx:
     # ------------------------------------------------------------------ jobs
     def job(self, name):
         seeded = any(str(v).startswith("art:tr_") for v in JOBS[name].get("env", {}).values())
-        if not JOBS[name].get("env"):
+        if not JOBS[name].get("env") or JOBS[name].get("spec_only"):
             # a job that reads nothing extracted from the code depends on the specification only
             d = os.path.join(WORK, "cache", "spec-" + spec_hash())
             os.makedirs(d, exist_ok=True)
@@ -166,7 +166,9 @@ def parse_tlc(out):
 def run_tlc(ctx, name, spec, env_override=None, allow_spec_violation=False):
     env = dict(os.environ)
     for k, v in spec.get("env", {}).items():
-        if v.startswith("art:"):
+        if v == "model:table":
+            env[k] = model_table(ctx)
+        elif v.startswith("art:"):
             env[k] = ctx.art(v[4:])
         elif v.startswith("alpha:"):
             env[k] = ctx.art(v[6:]) + ".alpha.json"
@@ -211,6 +213,32 @@ def run_tlc(ctx, name, spec, env_override=None, allow_spec_violation=False):
         raise ToolError("TLC job %s: %s (exit %d)\n%s" % (name, verdict, p.returncode, tail))
     return {"job": name, "verdict": verdict, "exit": p.returncode, "records": recs, "notes": notes,
             "stats": st, "wall_s": round(wall, 2), "module": spec["module"]}
+
+
+def model_table(ctx):
+    """the deterministic layout model, exported by TLC in the harness's table format (spec only)"""
+    d = os.path.join(WORK, "cache", "spec-" + spec_hash())
+    os.makedirs(d, exist_ok=True)
+    out = os.path.join(d, "model_table.ndjson")
+    if not os.path.exists(out + ".ok"):
+        run_tlc(ctx, "export_model", dict(kind="tlc", module="Export_Model", cfg="Export_Model.cfg", workers=1,
+                                          cont=False, heap="6g"), env_override={"OUT": out})
+        open(out + ".ok", "w").write("ok")
+    return out
+
+
+def model_drift(ctx):
+    """informational: cells where the deterministic model and the real layouts differ (only possible
+    where no property pins the cell; every pinned cell is judged by Conf_Layouts)"""
+    mt, it = model_table(ctx), ctx.art("t_layouts")
+    drift = {}
+    with open(mt) as fm, open(it) as fi:
+        for lm, li in zip(fm, fi):
+            a, b = json.loads(lm), json.loads(li)
+            n = sum(1 for x, y in zip(a["o"], b["o"]) if x != y)
+            if n:
+                drift.setdefault(a["layout"], {})[a["k"] + "/" + a["h"]] = n
+    return {l: {"rows": len(v), "cells": sum(v.values())} for l, v in drift.items()}
 
 
 def export_dir(ctx):
@@ -493,6 +521,10 @@ JOBS = {
                            env={"ISO": "art:iso_kb2_t", "COMP": "kb2"}, timeout=3600),
     "conf_iso_kb1_t": dict(kind="tlc", module="Conf_Isolation", cfg="Conf_Isolation.cfg", workers=1, cont=False, heap="16g",
                            env={"ISO": "art:iso_kb1_t", "COMP": "kb1"}, timeout=3600),
+    # the layout contract judged on the specification's own deterministic model (satisfiability /
+    # self-consistency of the reference data); depends on the spec only
+    "conf_layouts_model": dict(kind="tlc", module="Conf_Layouts", cfg="Conf_Layouts.cfg", workers=8, heap="6g",
+                               env={"TABLE": "model:table", "SOURCE": "model"}, spec_only=True),
     "props_scan": dict(kind="tlc", module="Props_Scan", cfg="Props_Scan.cfg", workers=1,
                        env={"GRAPH1": "art:g_set1", "GRAPH2": "art:g_set2"}),
 }
@@ -524,10 +556,11 @@ PROPS = {
                 sweeps_thorough=["iso_kb2_t", "iso_kb1_t"],
                 graphs_thorough=["g_kb2_bits", "g_kb1_bits", "g_kb2_mixedq", "g_kb1_mixedq", "g_kb2_mixed"],
                 traces_thorough=["tr_noise_kb2_long", "tr_noise_kb1_long"]),
-    "C03": dict(quick=["conf_layouts", "world_q"], thorough=["conf_layouts", "world_t"], tables=["t_layouts"]),
-    "C09": dict(quick=["conf_layouts"], tables=["t_layouts"]),
-    "C10": dict(quick=["conf_layouts"], tables=["t_layouts"]),
-    "C11": dict(quick=["conf_layouts", "conf_preds"], tables=["t_layouts", "t_preds"]),
+    "C03": dict(quick=["conf_layouts_model", "conf_layouts", "world_q"], thorough=["conf_layouts_model", "conf_layouts", "world_t"],
+                tables=["t_layouts"]),
+    "C09": dict(quick=["conf_layouts_model", "conf_layouts"], tables=["t_layouts"]),
+    "C10": dict(quick=["conf_layouts_model", "conf_layouts"], tables=["t_layouts"]),
+    "C11": dict(quick=["conf_layouts_model", "conf_layouts", "conf_preds"], tables=["t_layouts", "t_preds"]),
     "C04": dict(quick=["mc_event", "conf_event", "conf_kb2_events", "replay_event_q", "tracespec_kb2"],
                 thorough=["mc_event", "conf_event", "conf_kb2_events", "replay_event_t", "tracespec_kb2_long"], graphs=["g_event", "g_kb2_events"]),
     "C14": dict(quick=["mc_event", "conf_event", "conf_kb2_events", "replay_event_q", "tracespec_kb2"],
@@ -536,10 +569,10 @@ PROPS = {
                        "conf_kb2_bytes", "conf_event", "conf_kb2_events", "conf_layouts"],
                 graphs=["g_frame", "g_set1", "g_set2", "g_kb1_bytes", "g_kb2_bytes", "g_event", "g_kb2_events"],
                 tables=["t_words", "t_layouts"]),
-    "C12": dict(quick=["conf_layouts"], tables=["t_layouts"]),
-    "C15": dict(quick=["conf_layouts"], tables=["t_layouts"]),
-    "C16": dict(quick=["conf_layouts"], tables=["t_layouts"]),
-    "C17": dict(quick=["conf_layouts"], tables=["t_layouts"]),
+    "C12": dict(quick=["conf_layouts_model", "conf_layouts"], tables=["t_layouts"]),
+    "C15": dict(quick=["conf_layouts_model", "conf_layouts"], tables=["t_layouts"]),
+    "C16": dict(quick=["conf_layouts_model", "conf_layouts"], tables=["t_layouts"]),
+    "C17": dict(quick=["conf_layouts_model", "conf_layouts"], tables=["t_layouts"]),
 }
 
 
@@ -753,6 +786,11 @@ def run_check(pid, tier, seed):
         r = ctx.job(j)
         log("[%s] job %s: %s, %s, %.1fs" % (pid, j, r["verdict"], r["stats"], r["wall_s"]))
         results.append(r)
+    # a mismatch of the specification's own model against the contract is a defect of the specification
+    for r in results:
+        if any(rec.get("source") == "model" for rec in r["records"]):
+            raise ToolError("the layout model violates the layout contract (specification inconsistent): %s"
+                            % json.dumps([x for x in r["records"] if x.get("source") == "model"][:3])[:1500])
     # collect mismatch records relevant to this property
     found = []
     for r in results:
@@ -833,6 +871,7 @@ def run_check(pid, tier, seed):
                       "served_from_cache_of_same_tree": bool(r.get("from_cache")),
                       "notes": r["notes"][:3]} for r in results],
             "known_findings_observed": len(known_hit),
+            "model_drift_informational": (model_drift(ctx) if "conf_layouts_model" in jobs else None),
             "rule": "traces_validated_against_impl = implementation transitions / table cells / trace lines "
                     "extracted from the real objects in this run and judged by TLC, plus calls made by the "
                     "table walker against TLC-exported tables (jobs named replay_* / selfreplay_*)",
